@@ -8,6 +8,8 @@ STAGES = [
     Stage("directsolve-thread-limit", "p04_directsolve", "plain", {"quick": 40, "thorough": 1000}, offset=2000000, timeout_per_case=120, env={"OMP_THREAD_LIMIT": "2"}),
 ]
 THRESHOLDS = {
+    "copied_solver_identical": 0.5,             # copy-constructed direct solver: same bits as the original
+    "level_solver_equals_direct_solver": 1e-7,  # Level::initializeDirectSolver (other boundary mode first) vs the directly built solver, / |x| / max(1, 1e-3 Rmax/R0)
     # |b - A x|_i / (sum_j |A_ij| * ||x||_inf + |b_i|): row-normwise backward error
     "residual_rownorm_reference": 1e-11,
     "residual_rownorm_give_operator": 1e-11,
